@@ -96,6 +96,9 @@ def estimator_part(ctx, fails):
         df, meta = datagen.mixed_frame(ctx.rng, n=ctx.rng.randint(50, 90), outcome=otype)
         rs = np.random.RandomState(ctx.rng.randrange(2 ** 31))
         df['w'] = rs.randint(1, 6, size=len(df))
+        # a three-level exposure as two dummy columns, related to the weights (the weighted and unweighted fits then differ)
+        lvl = (df['w'].to_numpy() + rs.randint(0, 2, size=len(df)) + df['A'].fillna(0).astype(int).to_numpy()) % 3
+        df['E1'], df['E2'] = (lvl == 1).astype(int), (lvl == 2).astype(int)
         WL[0] = ['w', '_w_', 0, ''][i % 4]          # an integer-0 label is what pd.concat([df, pd.Series(w)], axis=1) produces; '_w_' is a label like any other
         if WL[0] != 'w':
             df = df.rename(columns={'w': WL[0]})
@@ -153,6 +156,15 @@ def estimator_part(ctx, fails):
                     refit(g, plan)
                     return [g.marginal_outcome]
                 both(f, df, rep, 'TimeFixedGFormula.%s' % std, 'TimeFixedGFormula(standardize=%s).fit(%s)' % (std, plan), fails, ctx, payload)
+
+        for std in ('population',):
+            for pname, plan in (('level-1', ['True', 'False']), ('level-2', ['False', 'True']), ('level-0', ['False', 'False'])):
+                def f(frame, w, std=std, plan=plan):
+                    g = TimeFixedGFormula(frame, ['E1', 'E2'], 'Y', exposure_type='categorical', outcome_type=otype, standardize=std, weights=w)
+                    g.outcome_model('E1 + E2 + ' + rhs, print_results=False)
+                    refit(g, plan)
+                    return [g.marginal_outcome]
+                both(f, df, rep, 'TimeFixedGFormula.categorical-exposure', 'TimeFixedGFormula(exposure=[E1, E2], exposure_type=categorical).fit(%s)' % pname, fails, ctx, payload)
 
         def f(frame, w):
             ai = AIPTW(frame, 'A', 'Y', weights=w)
